@@ -1,5 +1,5 @@
 """C07 Deadlines propagate across hops without stretching — E-PROV / E-Q / derive-visitor inspection."""
-from engine.facts import CannotDecide, callee_is, path_matches, strip_generics
+from engine.facts import strip_refs, CannotDecide, callee_is, path_matches, strip_generics
 from engine.prov import const_int
 from engine import cfg
 from .common import guarded_by_variant, Table, client_dispatch_poll, reachable_local_fns, norm_path, remaining_time, message_send_sites
@@ -90,7 +90,7 @@ def run(ctx):
             a = P.args_of(r)
             base_ok = all(P.is_call(x, 'Instant::now') for x, _ in P.root(a[0])) and bool(P.root(a[0]))
             addend = P.root(a[1])
-            from_wire = bool(addend) and all(P.is_call(x, 'Deserialize::deserialize') and ('t', '?ok') in q for x, q in addend)
+            from_wire = bool(addend) and all(P.is_call(x, 'Deserialize::deserialize') and (('t', '?ok') in q or ('v', 'Ok') in q) for x, q in addend)
             const_add = bool(addend) and all(P.is_call(x, 'Duration::from_secs', 'Duration::new', 'Duration::from_millis') or x[0] == 'const' for x, _ in addend)
             if not base_ok:
                 ok = False
@@ -132,6 +132,25 @@ def run(ctx):
          'a request that omits its deadline is not rejected with missing_field("%s")' % ctx_dl, [f.loc(t) for f, t in bad] or [de_derive[0].loc(de_derive[0].d)])
     # Deadline default for context::current()
     cur = F.inherent('context::Context', 'current')
+    setc = None
+    for im in F.trait_impls('SpanExt'):
+        for name, mid in im['methods']:
+            if name == 'set_context':
+                setc = F.fns.get(mid)
+    if setc is None:
+        raise CannotDecide('SpanExt::set_context impl')
+    # the span-scoped carrier type: whatever set_context stores with Context::with_value and wraps an Instant (identified by use, not by name)
+    carrier = None
+    for bb, t in setc.calls():
+        if callee_is(t, 'opentelemetry::Context::with_value', 'Context::with_value'):
+            ty = strip_refs((t.get('arg_tys') or ['', ''])[1])
+            a_ = F.adts.get(ty.split('<')[0])
+            if a_ is not None and any(x[1].endswith('Instant') for x in a_['variants'][0]['fields']):
+                carrier = ty.split('<')[0]
+    R.ob('C07.current', ('SpanExt::set_context', 'stores a deadline carrier in the span context'), carrier is not None,
+         'installing a request context stores a value wrapping the deadline (an Instant) in the span\'s OpenTelemetry context', [setc.loc(setc.d)])
+    if carrier is None:
+        return
     cur_aggs = list(cur.aggregates('context::Context'))
     ok = len(cur_aggs) == 1
     det = ''
@@ -142,24 +161,37 @@ def run(ctx):
         got = [r for r, p in rs if P.is_call(r, 'opentelemetry::Context::get', 'Context::get')]
         ok = bool(got)
         for r in got:
-            if 'Deadline' not in (P.call_term(P.unbound(r)).get('substs') or ''):
+            if carrier.split('::')[-1] not in (P.call_term(P.unbound(r)).get('substs') or ''):
                 ok = False
+        # every other alternative is the documented default: the default function itself, or Default::default of the carrier whose impl calls it
+        dd = [im for im in F.trait_impls('Default') if im['self_head'] and path_matches(im['self_head'], carrier)]
+        dflt_ok = False
+        if len(dd) == 1:
+            g = F.fns.get(dd[0]['methods'][0][1])
+            dflt_ok = g is not None and any(F.callee_fn(t) is df for df in defaults.values() for _, t in g.calls())
+        ok_def = True
+        n_def = 0
+        for r, p in rs:
+            if r in got:
+                continue
+            n_def += 1
+            ru = P.unbound(r)
+            if ru[0] == 'call' and any(F.callee_fn(P.call_term(ru)) is df for df in defaults.values()):
+                continue
+            if ru[0] == 'call' and callee_is(P.call_term(ru), 'Instant::add', 'Add::add') and any(True for df in defaults.values()):
+                # the default function inlined: now + 10 s
+                a2 = P.args_of(r)
+                if all(P.is_call(x, 'Instant::now') for x, _ in P.root(a2[0])) and all(P.is_call(x, 'Duration::from_secs') and const_int(P.args_of(x)[0]) == 10 for x, _ in P.root(a2[1])):
+                    continue
+            if ru[0] == 'const' and 'Default::default' in str(ru) and dflt_ok:
+                continue
+            ok_def = False
+    else:
+        ok_def, n_def = False, 0
     R.ob('C07.current', ('context::current', 'reads the span-scoped Deadline'), ok,
          'context::current() takes its deadline from the Deadline value stored in the current span\'s context (or the default)', [cur.loc(cur.d)], det)
-    dd = [im for im in F.trait_impls('Default') if im['self_head'] and path_matches(im['self_head'], 'context::Deadline')]
-    ok = len(dd) == 1
-    if ok:
-        g = F.fns.get(dd[0]['methods'][0][1])
-        ok = g is not None and any(F.callee_fn(t) is df for df in defaults.values() for _, t in g.calls())
-    R.ob('C07.current', ('context::Deadline', 'default is the 10 s default'), ok, 'absent a request scope the deadline defaults to the same now + 10 s', [cur.loc(cur.d)])
-    setc = None
-    for im in F.trait_impls('SpanExt'):
-        for name, mid in im['methods']:
-            if name == 'set_context':
-                setc = F.fns.get(mid)
-    if setc is None:
-        raise CannotDecide('SpanExt::set_context impl')
-    dls = list(setc.aggregates('context::Deadline'))
+    R.ob('C07.current', ('context::Deadline', 'default is the 10 s default'), ok_def and n_def >= 1, 'absent a request scope the deadline defaults to the same now + 10 s', [cur.loc(cur.d)], det)
+    dls = list(setc.aggregates(carrier))
     ok = len(dls) == 1
     if ok:
         i, j, s = dls[0]
